@@ -114,6 +114,14 @@ func VerifH_v6_alloc() {
 	}
 	if err != nil {
 		vnd.Cover("full")
+		if ipform == 2 {
+			// a hint naming a free block cannot fail
+			if vnd.U128Eq(vnd.U128And(h, vnd.U128Not(lowMask(128-L))), base) {
+				hi := vnd.U128Lshr(vnd.U128Sub(h, base), uint(128-page)).Lo
+				vnd.Assume(hi < uint64(n))
+				vnd.Assert(hbit(pre, hi), "C07 v6 a hint naming a free block is honoured, not refused")
+			}
+		}
 		vnd.Assert(err == allocators.ErrNoAddrAvail, "C05 v6 failure reports no address available")
 		vnd.Assert(hallSet(pre, n), "C05 v6 fails only when every block is outstanding")
 		vnd.Assert(hsameExcept(post, pre, 0, false, true), "C05 v6 failure changes nothing")
